@@ -2,7 +2,9 @@
 # usage: tools/seedrun.sh Cxx /path/patch.diff [demo.py]   -- evaluates a seeded change in a scratch worktree (VERIF_REPO)
 pid=$1; patch=$(readlink -f $2); demo=$( [ -n "$3" ] && readlink -f $3 ); wt=/tmp/wt-seedrun-$pid-$$
 git -C /repo worktree add -q $wt HEAD || exit 2
-if ! git -C $wt apply $patch; then echo "PATCH DOES NOT APPLY"; git -C /repo worktree remove --force $wt; exit 2; fi
+ap=$(dirname $patch)/apply.sh
+if ! git -C $wt apply $patch && [ ! -f $ap ]; then echo "PATCH DOES NOT APPLY"; git -C /repo worktree remove --force $wt; exit 2; fi
+[ -f $ap ] && bash $ap $wt
 if [ -n "$demo" ]; then (cd $wt && PYTHONPATH=$wt/src timeout 600 /venv/bin/python -W ignore $demo >/dev/null 2>&1; echo "demo exit (changed): $?"); fi
 VERIF_REPO=$wt ./check $pid 2>&1 | grep -E "^VIOLATION|^KNOWN|^\[C|^\s+\[" | cut -c1-220 | head -12
 rc=${PIPESTATUS[0]}
